@@ -304,6 +304,11 @@ func (e *Engine) nextReplay(kind, tag string) *InputRec {
 	if p.replayIn == nil {
 		return nil
 	}
+	if kind == "now" && (p.replayPos >= len(p.replayIn) || p.replayIn[p.replayPos].Kind != "now") {
+		// vectors recorded by the native build have no clock readings: use a fixed 2026 instant
+		p.synthNow += 1000
+		return &InputRec{Kind: "now", Tag: tag, Vals: []uint64{1790000000000000000 + p.synthNow}}
+	}
 	if p.replayPos >= len(p.replayIn) {
 		panic(boundErr{fmt.Sprintf("concrete replay ran out of inputs at %s %q", kind, tag)})
 	}
